@@ -51,10 +51,15 @@ macro_rules! rot_3d {
         let d: &mut Drv = $d;
         let (b, k, ang) = token(d, false);
         let (ax, len) = pyth3(&mut d.rng);
+        // any non-zero axis: also very short and very long ones (|axis|^2 far below epsilon / far above 1)
+        let sk: i64 = [0, 0, 0, -25, -30, 12][d.pick(6)];
+        let sc = if sk >= 0 { Q::new(1i128 << sk, 1) } else { Q::new(1, 1i128 << (-sk)) };
+        let (ax, len): (Vec<Q>, Q) = (ax.iter().map(|x| *x * sc).collect(), len * sc);
+        let lenq = || if len.d <= (1 << 30) && len.n.abs() <= (1 << 30) { json!([len.n as i64, len.d as i64]) } else { crate::q::inconclusive("length witness too large") };
         let a = base_mat(d, $n);
         let am = <$m::$M<Q> as MatT<Q>>::from_rows(&a);
         let lay = <$m::$M<Q> as MatT<Q>>::LAY;
-        let arg = |form: &str, a: &Vec<Vec<Q>>| json!({"n": $n, "lay": lay, "form": form, "b": b, "k": k, "v": evs(&ax), "len": ev(len), "lenq": pairq(len), "a": evm(a)});
+        let arg = |form: &str, a: &Vec<Vec<Q>>| json!({"n": $n, "lay": lay, "form": form, "b": b, "k": k, "v": evs(&ax), "len": ev(len), "lenq": lenq(), "a": evm(a)});
         d.call("rot_3d", || arg("new", &ident($n)), || em(&$m::$M::<Q>::rotation_3d(ang, v3(&ax))));
         d.call("rot_3d", || arg("ed", &a), || em(&am.rotated_3d(ang, v3(&ax))));
         d.call("rot_3d", || arg("inplace", &a), || { let mut m = am; m.rotate_3d(ang, v3(&ax)); em(&m) });
@@ -207,6 +212,10 @@ fn quats(d: &mut Drv) {
         let (a, axis) = rq.into_angle_axis();
         json!({"ang": token_of(a), "axis": evs(&[axis.x, axis.y, axis.z])})
     });
+    // w = -1 exactly (a full turn: -identity, and rotation_x(2 pi)): sqrt(1 - w^2) = 0, "any axis would do"
+    for nq in [Quaternion::from_xyzw(Q::int(0), Q::int(0), Q::int(0), Q::int(-1)), Quaternion::rotation_x(Q::pi_mul(2, 1)), Quaternion::rotation_3d(Q::pi_mul(-2, 1), v3(&ax))] {
+        d.call("angle_axis", || json!({"q": eq_(&nq)}), || { let (a, axis) = nq.into_angle_axis(); json!({"ang": token_of(a), "axis": evs(&[axis.x, axis.y, axis.z])}) });
+    }
     let idq = Quaternion::<Q>::identity();
     d.call("angle_axis", || json!({"q": eq_(&idq)}), || { let (a, axis) = idq.into_angle_axis(); json!({"ang": token_of(a), "axis": evs(&[axis.x, axis.y, axis.z])}) });
 }
@@ -428,13 +437,18 @@ macro_rules! views {
         let dist = Q::frac(d.rng.gen_range(1..=4), [1, 2][d.pick(2)]);
         let (a, b) = (Q::frac(d.rng.gen_range(1..=3), [1, 2][d.pick(2)]), Q::int(d.rng.gen_range(-2..=2)));
         let up: Vec<Q> = (0..3).map(|i| a * u[i] + b * f[i]).collect();
+        // the look-at axioms are invariant under a positive scaling of `up` (Law_Xform LookAtLaw): the code is also run on
+        // very short and very long up vectors (2^-30 .. 2^20); the record keeps the unscaled direction and the exponent
+        let upk: i64 = [0, 0, -24, -30, 20][d.pick(5)];
+        let upscale = if upk >= 0 { Q::new(1i128 << upk, 1) } else { Q::new(1, 1i128 << (-upk)) };
+        let up_code: Vec<Q> = up.iter().map(|x| *x * upscale).collect();
         for (hand, sgn) in [("lh", 1i64), ("rh", -1), ("dep", 1)] {
             let target: Vec<Q> = (0..3).map(|i| eye[i] + Q::int(sgn) * dist * f[i]).collect();
-            let arg = |model: i64| json!({"hand": hand, "zsign": sgn, "lay": lay, "model": model, "eye": evs(&eye), "target": evs(&target), "up": evs(&up)});
+            let arg = |model: i64| json!({"hand": hand, "zsign": sgn, "lay": lay, "model": model, "eye": evs(&eye), "target": evs(&target), "up": evs(&up), "upk": upk});
             #[allow(deprecated)]
-            d.call("look_at", || arg(0), || em(&match hand { "lh" => $m::Mat4::<Q>::look_at_lh(v3(&eye), v3(&target), v3(&up)), "rh" => $m::Mat4::<Q>::look_at_rh(v3(&eye), v3(&target), v3(&up)), _ => $m::Mat4::<Q>::look_at(v3(&eye), v3(&target), v3(&up)) }));
+            d.call("look_at", || arg(0), || em(&match hand { "lh" => $m::Mat4::<Q>::look_at_lh(v3(&eye), v3(&target), v3(&up_code)), "rh" => $m::Mat4::<Q>::look_at_rh(v3(&eye), v3(&target), v3(&up_code)), _ => $m::Mat4::<Q>::look_at(v3(&eye), v3(&target), v3(&up_code)) }));
             #[allow(deprecated)]
-            d.call("look_at", || arg(1), || em(&match hand { "lh" => $m::Mat4::<Q>::model_look_at_lh(v3(&eye), v3(&target), v3(&up)), "rh" => $m::Mat4::<Q>::model_look_at_rh(v3(&eye), v3(&target), v3(&up)), _ => $m::Mat4::<Q>::model_look_at(v3(&eye), v3(&target), v3(&up)) }));
+            d.call("look_at", || arg(1), || em(&match hand { "lh" => $m::Mat4::<Q>::model_look_at_lh(v3(&eye), v3(&target), v3(&up_code)), "rh" => $m::Mat4::<Q>::model_look_at_rh(v3(&eye), v3(&target), v3(&up_code)), _ => $m::Mat4::<Q>::model_look_at(v3(&eye), v3(&target), v3(&up_code)) }));
         }
         // change of basis: orthonormal (i, j, k) and a general (non-orthonormal) basis for local_to_basis
         let o: Vec<Q> = (0..3).map(|_| Q::int(d.rng.gen_range(-4..=4))).collect();
